@@ -94,7 +94,9 @@ Definition mon (c : case) : bool :=
 (* the premises of C01_builder_valid (spec/BuilderWFS.v: wf_prog; and the type table) on an in-model program *)
 Definition prem (c : case) : bool :=
   match c with
-  | CPrem tys p => wf_prog tys p && r_table tys
+  | CPrem tys p => wf_prog tys p && r_table tys &&
+                   (* fourth pass: the embedded program also meets the premises of C01_builder2_valid *)
+                   wf_prog2 tys (emb p)
   (* the premises of the theorems about the extended language (spec/Builder2WFS.v) *)
   | CPrem2 tys p => croot_ok p && wt_prog2 tys p && r_table tys &&
                      (* fourth pass: the liveness-aware premises of rules 9, 10, 11 (spec/Builder2LiveS.v) *)
